@@ -186,8 +186,10 @@ PDone(t) ==
   /\ UNCHANGED <<state, disk, mode, op, cur, todel, hist>>
 
 (* an I/O error ends the operation wherever a file-system call is made *)
+\* ("find" is in the list because remove_item cleans up the key directory after it removed the file - our RmFile - and
+\* that clean-up fails with DirectoryNotEmpty when a concurrent put has just created a file there)
 Fail(t) ==
-  /\ pc[t] \in {"open", "rmfile", "write", "del"}
+  /\ pc[t] \in {"open", "rmfile", "write", "del", "find"}
   /\ Ret(t, "err")
   /\ todel' = [todel EXCEPT ![t] = {}]
   /\ planted' = TRUE        \* a failed operation may leave its file or its queued deletions behind
